@@ -70,10 +70,12 @@ func (a *application) start(mode gen.ApplicationMode, options gen.ApplicationOpt
 
 		pid, err := a.node.spawn(item.Factory, opts)
 		if err != nil {
-			a.group.Range(func(pid gen.PID, _ bool) bool {
+			// kill outside of Range: killing a sleeping member terminates it right here,
+			// which takes the group lock (a.terminate) that Range is holding
+			members := a.members()
+			for _, pid := range members {
 				a.node.Kill(pid)
-				return true
-			})
+			}
 			atomic.StoreInt32(&a.state, int32(gen.ApplicationStateLoaded))
 			return err
 		}
@@ -125,14 +127,16 @@ func (a *application) stop(force bool, timeout time.Duration) error {
 	// update mode to prevent triggering 'permantent' mode
 	a.mode = gen.ApplicationModeTemporary
 
-	a.group.Range(func(pid gen.PID, _ bool) bool {
+	// not within Range: killing a sleeping member terminates it right here, which
+	// takes the group lock (a.terminate) that Range is holding
+	members := a.members()
+	for _, pid := range members {
 		if force {
 			a.node.Kill(pid)
 		} else {
 			a.node.SendExit(pid, gen.TerminateReasonShutdown)
 		}
-		return true
-	})
+	}
 
 	if force {
 		a.reason = gen.TerminateReasonKill
@@ -254,6 +258,16 @@ func (a *application) info() gen.ApplicationInfo {
 
 	info.State = gen.ApplicationState(atomic.LoadInt32(&a.state))
 	return info
+}
+
+// members returns a snapshot of the application group
+func (a *application) members() []gen.PID {
+	pids := []gen.PID{}
+	a.group.Range(func(pid gen.PID, _ bool) bool {
+		pids = append(pids, pid)
+		return true
+	})
+	return pids
 }
 
 func (a *application) tryUnload() bool {
